@@ -335,7 +335,30 @@ namespace vh
     if(!out.empty()) { G().out = std::fopen(out.c_str(), "a"); if(!G().out) { std::perror("open out"); return 2; } }
     if(!marker.empty()) { G().marker_fd = open(marker.c_str(), O_WRONLY | O_CREAT, 0644); }
     if(single >= 0) { from = std::uint64_t(single); to = from + 1; G().n_samples = 1; }
-    for(std::uint64_t k = from; k < to; ++k) run_one(family, it->second, k);
+    auto summary_json = [&](std::uint64_t upto) {
+      J sg; for(auto& x : G().sigs) sg.kv(x.first, (unsigned long long)x.second);
+      J op; for(auto& x : G().ops) op.kv(x.first, (unsigned long long)x.second);
+      J cn; for(auto& x : G().counters) cn.kv(x.first, (unsigned long long)x.second);
+      J r; r.kv("t", "summary").kv("family", family).kv("from", (unsigned long long)from).kv("to", (unsigned long long)upto)
+        .kv("cases", (unsigned long long)G().cases).kv("events", (unsigned long long)G().events)
+        .kv("trivial", (unsigned long long)G().trivial).kv("viols", (unsigned long long)G().viols)
+        .raw("sigs", sg.str()).raw("ops", op.str()).raw("counters", cn.str());
+      return r.str();
+    };
+    // a partial summary is flushed to <marker>.sum now and then, so that the supervisor can still count the cases of
+    // an invocation that is later killed by an abort / sanitizer report
+    const std::string sumfile = marker.empty() ? std::string() : marker + ".sum";
+    std::uint64_t next_flush = from + 32;
+    for(std::uint64_t k = from; k < to; ++k)
+    {
+      run_one(family, it->second, k);
+      if(!sumfile.empty() && k + 1 >= next_flush && k + 1 < to)
+      {
+        next_flush = k + 1 + std::max<std::uint64_t>(32, (k + 1 - from) / 4);
+        if(FILE* f = std::fopen((sumfile + ".tmp").c_str(), "w")) { std::fputs(summary_json(k + 1).c_str(), f); std::fclose(f); std::rename((sumfile + ".tmp").c_str(), sumfile.c_str()); }
+      }
+    }
+    if(!sumfile.empty()) std::remove(sumfile.c_str());
     J sg; for(auto& s : G().sigs) sg.kv(s.first, (unsigned long long)s.second);
     J op; for(auto& s : G().ops) op.kv(s.first, (unsigned long long)s.second);
     J cn; for(auto& s : G().counters) cn.kv(s.first, (unsigned long long)s.second);
